@@ -184,3 +184,25 @@ Fixpoint run_wire_s {A : Type} (p : prog A) (w : wire) (ss : list wsched) : opti
       | Some (w', WRep r) => run_wire_s (k r) w' (tl ss)
       end
   end.
+
+(* ---------- the bridge in front of ANY bus ---------- *)
+(* Odk::process_message with the bus abstracted to what it answers: [reply m] is the bus's answer to the forwarded
+   message (None = no answer).  The bridge writes a frame back exactly when there is an answer, whatever kind of
+   message was forwarded. *)
+Definition odk_step_replied (p : port) (reply : msg -> option msg)
+  : option (result oerr unit * port * option msg (* forwarded *)) :=
+  match frame_read (pt_in p) with
+  | None => None
+  | Some (Err e, r') => Some (Err (OComm e), {| pt_in := r'; pt_out := pt_out p |}, None)
+  | Some (Ok f, r') =>
+      let m := msg_of_frame f in
+      match reply m with
+      | None => Some (Ok tt, {| pt_in := r'; pt_out := pt_out p |}, Some m)
+      | Some rm =>
+          match frame_write (frame_of_msg rm) (pt_out p) with
+          | None => None
+          | Some (Ok _, w') => Some (Ok tt, {| pt_in := r'; pt_out := w' |}, Some m)
+          | Some (Err e, w') => Some (Err (OComm e), {| pt_in := r'; pt_out := w' |}, Some m)
+          end
+      end
+  end.
